@@ -205,31 +205,43 @@ def main():
     codecs = a.codecs.split(',')
     ops = set(a.ops.split(','))
     numerics = [x == '1' for x in a.numerics.split(',')]
+    # first pass: only where each case is and which batch it belongs to (every shard process reads the whole file;
+    # keeping all parsed cases cost 4 GB per process on the thorough universes)
     groups = {}
-    with open(a.cases) as f:
-        for idx, line in enumerate(f):
-            if not line.strip():
-                continue
-            c = json.loads(line)
-            c.setdefault('cid', 'c%d' % idx)
-            key = (c['env']['tagdef'], c['env'].get('extimp', False))
-            groups.setdefault(key, []).append(c)
+    with open(a.cases, 'rb') as f:
+        idx = 0
+        while True:
+            pos = f.tell()
+            line = f.readline()
+            if not line:
+                break
+            if line.strip():
+                c = json.loads(line)
+                key = (c['env']['tagdef'], c['env'].get('extimp', False))
+                groups.setdefault(key, []).append((pos, idx, c.get('depth') == 100))
+                del c
+            idx += 1
     batches = []
     for key in sorted(groups):
-        g = [c for c in groups[key] if c.get('depth') != 100]
-        for c in groups[key]:
-            if c.get('depth') == 100:      # big payloads: one case per batch, spread over the shards
-                batches.append([c])
+        g = [x for x in groups[key] if not x[2]]
+        for x in groups[key]:
+            if x[2]:                       # big payloads: one case per batch, spread over the shards
+                batches.append([x])
         for i in range(0, len(g), a.batch):
             batches.append(g[i:i + a.batch])
     sys.setrecursionlimit(3000)
-    with open(a.out, 'w') as out:
+    with open(a.out, 'w') as out, open(a.cases, 'rb') as f:
         for bi, b in enumerate(batches):
             if bi % n != k:
                 continue
-            for j, c in enumerate(b):
+            cases = []
+            for j, (pos, idx, _) in enumerate(b):
+                f.seek(pos)
+                c = json.loads(f.readline())
+                c.setdefault('cid', 'c%d' % idx)
                 c['bi'] = j
-            run_batch(b, codecs, ops, numerics, out)
+                cases.append(c)
+            run_batch(cases, codecs, ops, numerics, out)
 
 
 if __name__ == '__main__':
